@@ -425,6 +425,15 @@ func (v *PacketDslVisitorImpl) VisitInerObjectField(ctx *gen.InerObjectFieldCont
 			continue
 		}
 		f := fld.(*model.Field)
+		if _, ok := f.Attr.(*model.LengthFieldAttribute); ok {
+			v.BinModel.AddSyntaxError(&model.SyntaxError{
+				Line:            fctx.GetStart().GetLine(),
+				Column:          fctx.GetStart().GetTokenSource().GetCharPositionInLine(),
+				Msg:             "LengthOfField can only be declared in the root packet",
+				OffendingSymbol: nil,
+			})
+			continue
+		}
 		if _, exists := subFieldMap[f.Name]; exists {
 			v.BinModel.AddSyntaxError(&model.SyntaxError{
 				Line:            fctx.GetStart().GetLine(),
